@@ -10,7 +10,7 @@ namespace Wake
 /-- program points at which the loop thread holds `_lock` -/
 def LPc.locked : LPc → Bool
   | .armSet | .armChk | .armChkH | .armRel | .wChk | .wClr | .wRel
-  | .redLower | .redChk | .redSig | .redRel => true
+  | .redLower | .redChk | .redSig | .redRel | .tChk | .tRel => true
   | _ => false
 
 /-- `_currently_handling` is the current generate_events -/
@@ -26,9 +26,14 @@ def LPc.checked : LPc → Bool
 /-- `event.handler = <waiter handler>` has been executed -/
 def LPc.afterH : LPc → Bool
   | .top | .appGe | .snap | .pops | .dSet | .dDone | .armAcq | .armSet | .armChk | .armChkH
-  | .armRel | .setH => false
+  | .armRel | .setH | .tAcq | .tChk | .tRel => false
   | _ => true
 
+/-- The inductive invariant.  `k1` ("once the arming block has looked at the queue, a queued event means
+    time left 0 or a firer about to write 0") and `k2` ("blocked with time left 0 means signal set or a firer
+    about to set it") carry the wake-up; the Timer's program points `tAcq`/`tChk`/`tRel` are `checked` and
+    not `afterH`, its write `tlwOther` needs the lock (`mutex`: no firer at `lower`) and a non-zero time
+    left, so by `k1` it happens only with nothing queued. -/
 structure WInv (s : St) : Prop where
   lock : s.lockL = s.lpc.locked
   mutex : s.lockL = true → s.cs = none
@@ -40,6 +45,11 @@ structure WInv (s : St) : Prop where
   k2 : s.blocked = true → s.tl = .zero →
         s.sig > 0 ∨ ∃ f, s.cs = some f ∧ (f.pc = .checkH ∨ f.pc = .sig)
   ftid : ∀ f, s.cs = some f → f.tid ≠ 0
+  /-- the handler slot holds a non-waiter (a Timer's handler, no `resume`): only between the arming block
+      and the waiter's `event.handler = ...`, whatever the time left is (negative, 0, or the positive value
+      a Timer wrote) - a firer that lowers the time left to 0 then finds nobody to resume, and `k1` (the
+      loop will read 0) is what keeps the wake-up -/
+  ho : s.hoth = true → s.hset = false ∧ s.lpc.afterH = false ∧ s.lpc.checked = true
 
 theorem pending_qIncr (q : QS) (t : Nat) : (qIncr q t).pending = q.pending := rfl
 
@@ -58,46 +68,47 @@ theorem pending_qSnap {q q' : QS} {n : Nat} (h : qSnap q n = some q') :
   · cases h
 
 theorem init_inv (m : Mode) : WInv (init m) := by
-  refine ⟨rfl, ?_, ?_, ?_, ?_, ?_, ?_, ?_⟩ <;> simp [init, LPc.geSet, LPc.checked, LPc.afterH, St.blocked]
+  refine ⟨rfl, ?_, ?_, ?_, ?_, ?_, ?_, ?_, ?_⟩ <;> simp [init, LPc.geSet, LPc.checked, LPc.afterH, St.blocked]
 
 macro "wsimp" : tactic => `(tactic|
   simp_all [LPc.locked, LPc.geSet, LPc.checked, LPc.afterH, St.blocked, St.pendingNonempty])
 
 theorem loop_simple {s s' : St} {l : Lab} (h : WInv s) (hs : stepLoop s l = some s')
     (hl : l = .hwOther ∨ l = .hwNone ∨ l = .lAcq ∨ l = .hwGe ∨ l = .tlwZero ∨ l = .lRel ∨ l = .hsetW
-      ∨ l = .clr ∨ l = .wake ∨ l = .timeout ∨ l = .wait0 ∨ l = .sigSetL ∨ l = .pipeRd ∨ l = .lIncr) :
+      ∨ l = .clr ∨ l = .wake ∨ l = .timeout ∨ l = .wait0 ∨ l = .sigSetL ∨ l = .pipeRd ∨ l = .lIncr
+      ∨ l = .hsetWnoResume ∨ l = .tlwOther) :
     WInv s' := by
-  obtain ⟨h1, h2, h3, h4, h5, h6, h7, h8⟩ := h
-  rcases hl with rfl | rfl | rfl | rfl | rfl | rfl | rfl | rfl | rfl | rfl | rfl | rfl | rfl | rfl <;>
+  obtain ⟨h1, h2, h3, h4, h5, h6, h7, h8, h9⟩ := h
+  rcases hl with rfl | rfl | rfl | rfl | rfl | rfl | rfl | rfl | rfl | rfl | rfl | rfl | rfl | rfl | rfl | rfl <;>
   simp only [stepLoop] at hs <;>
   (repeat' (split at hs)) <;>
   first
   | (cases hs; done)
-  | (injection hs with hs; subst hs; refine ⟨?_, ?_, ?_, ?_, ?_, ?_, ?_, ?_⟩ <;> wsimp <;> grind)
+  | (injection hs with hs; subst hs; refine ⟨?_, ?_, ?_, ?_, ?_, ?_, ?_, ?_, ?_⟩ <;> wsimp <;> grind)
 
 theorem loop_param {s s' : St} {l : Lab} (h : WInv s) (hs : stepLoop s l = some s')
     (hl : (∃ v, l = .lHsetR v) ∨ (∃ v, l = .tlr v) ∨ (∃ c, l = .selRet c) ∨ (∃ c, l = .selTimeout c)) :
     WInv s' := by
-  obtain ⟨h1, h2, h3, h4, h5, h6, h7, h8⟩ := h
+  obtain ⟨h1, h2, h3, h4, h5, h6, h7, h8, h9⟩ := h
   rcases hl with ⟨v, rfl⟩ | ⟨v, rfl⟩ | ⟨v, rfl⟩ | ⟨v, rfl⟩ <;>
   simp only [stepLoop] at hs <;>
   (repeat' (split at hs)) <;>
   first
   | (cases hs; done)
-  | (injection hs with hs; subst hs; refine ⟨?_, ?_, ?_, ?_, ?_, ?_, ?_, ?_⟩ <;> wsimp <;> grind)
+  | (injection hs with hs; subst hs; refine ⟨?_, ?_, ?_, ?_, ?_, ?_, ?_, ?_, ?_⟩ <;> wsimp <;> grind)
 
 theorem ageSaw_tid (f : Firer) : (ageSaw f).tid = f.tid := by
   unfold ageSaw; split <;> rfl
 
 theorem loop_queue {s s' : St} {l : Lab} (h : WInv s) (hs : stepLoop s l = some s')
     (hl : (∃ a b, l = .lAppGe a b) ∨ (∃ n, l = .snap n) ∨ (∃ a b, l = .pop a b)) : WInv s' := by
-  obtain ⟨h1, h2, h3, h4, h5, h6, h7, h8⟩ := h
+  obtain ⟨h1, h2, h3, h4, h5, h6, h7, h8, h9⟩ := h
   rcases hl with ⟨a, b, rfl⟩ | ⟨n, rfl⟩ | ⟨a, b, rfl⟩ <;>
   simp only [stepLoop] at hs <;>
   (repeat' (split at hs)) <;>
   first
   | (cases hs; done)
-  | (injection hs with hs; subst hs; refine ⟨?_, ?_, ?_, ?_, ?_, ?_, ?_, ?_⟩ <;> wsimp <;> grind [ageSaw_tid])
+  | (injection hs with hs; subst hs; refine ⟨?_, ?_, ?_, ?_, ?_, ?_, ?_, ?_, ?_⟩ <;> wsimp <;> grind [ageSaw_tid])
 
 macro "fsimp" : tactic => `(tactic|
   simp_all [LPc.locked, LPc.geSet, LPc.checked, LPc.afterH, St.blocked, St.pendingNonempty,
@@ -108,31 +119,31 @@ macro "firer_case" hs:ident : tactic => `(tactic|
    (repeat' (split at $hs:ident)) <;>
    first
    | (cases $hs:ident; done)
-   | (injection $hs:ident with $hs:ident; subst $hs:ident; refine ⟨?_, ?_, ?_, ?_, ?_, ?_, ?_, ?_⟩ <;> fsimp <;> grind [pending_qApp])))
+   | (injection $hs:ident with $hs:ident; subst $hs:ident; refine ⟨?_, ?_, ?_, ?_, ?_, ?_, ?_, ?_, ?_⟩ <;> fsimp <;> grind [pending_qApp])))
 
 theorem firer_fAcq {s s' : St} {t : Nat} (h : WInv s) (hs : stepFirer s (.fAcq t) = some s') : WInv s' := by
-  obtain ⟨h1, h2, h3, h4, h5, h6, h7, h8⟩ := h
+  obtain ⟨h1, h2, h3, h4, h5, h6, h7, h8, h9⟩ := h
   firer_case hs
 theorem firer_fHr {s s' : St} {t : Nat} {v : HK} (h : WInv s) (hs : stepFirer s (.fHr t v) = some s') : WInv s' := by
-  obtain ⟨h1, h2, h3, h4, h5, h6, h7, h8⟩ := h
+  obtain ⟨h1, h2, h3, h4, h5, h6, h7, h8, h9⟩ := h
   firer_case hs
 theorem firer_fIncr {s s' : St} {t : Nat} (h : WInv s) (hs : stepFirer s (.fIncr t) = some s') : WInv s' := by
-  obtain ⟨h1, h2, h3, h4, h5, h6, h7, h8⟩ := h
+  obtain ⟨h1, h2, h3, h4, h5, h6, h7, h8, h9⟩ := h
   firer_case hs
 theorem firer_fApp {s s' : St} {t n : Nat} (h : WInv s) (hs : stepFirer s (.fApp t n) = some s') : WInv s' := by
-  obtain ⟨h1, h2, h3, h4, h5, h6, h7, h8⟩ := h
+  obtain ⟨h1, h2, h3, h4, h5, h6, h7, h8, h9⟩ := h
   firer_case hs
 theorem firer_fTlwZero {s s' : St} {t : Nat} (h : WInv s) (hs : stepFirer s (.fTlwZero t) = some s') : WInv s' := by
-  obtain ⟨h1, h2, h3, h4, h5, h6, h7, h8⟩ := h
+  obtain ⟨h1, h2, h3, h4, h5, h6, h7, h8, h9⟩ := h
   firer_case hs
 theorem firer_fHsetR {s s' : St} {t : Nat} {v : Bool} (h : WInv s) (hs : stepFirer s (.fHsetR t v) = some s') : WInv s' := by
-  obtain ⟨h1, h2, h3, h4, h5, h6, h7, h8⟩ := h
+  obtain ⟨h1, h2, h3, h4, h5, h6, h7, h8, h9⟩ := h
   firer_case hs
 theorem firer_fSig {s s' : St} {t : Nat} (h : WInv s) (hs : stepFirer s (.fSig t) = some s') : WInv s' := by
-  obtain ⟨h1, h2, h3, h4, h5, h6, h7, h8⟩ := h
+  obtain ⟨h1, h2, h3, h4, h5, h6, h7, h8, h9⟩ := h
   firer_case hs
 theorem firer_fRel {s s' : St} {t : Nat} (h : WInv s) (hs : stepFirer s (.fRel t) = some s') : WInv s' := by
-  obtain ⟨h1, h2, h3, h4, h5, h6, h7, h8⟩ := h
+  obtain ⟨h1, h2, h3, h4, h5, h6, h7, h8, h9⟩ := h
   firer_case hs
 
 theorem step_winv {s s' : St} {l : Lab} (h : WInv s) (hs : step s l = some s') : WInv s' := by
@@ -159,6 +170,8 @@ theorem step_winv {s s' : St} {l : Lab} (h : WInv s) (hs : step s l = some s') :
   case selRet c => exact loop_param h hs (Or.inr (Or.inr (Or.inl ⟨c, rfl⟩)))
   case selTimeout c => exact loop_param h hs (Or.inr (Or.inr (Or.inr ⟨c, rfl⟩)))
   case pipeRd => exact loop_simple h hs (by simp)
+  case hsetWnoResume => exact loop_simple h hs (by simp)
+  case tlwOther => exact loop_simple h hs (by simp)
   case fAcq t => exact firer_fAcq h hs
   case fHr t v => exact firer_fHr h hs
   case fIncr t => exact firer_fIncr h hs
